@@ -30,6 +30,8 @@ EXPLANATION = (
 )
 TECHNIQUE += '; key-completeness dataflow rule for local memo tables'
 EXPLANATION += ' Added: (R7) in functions that use convention tables, a value cached in a local dict under a key depends on no loop-variant variable that the key does not determine (positive control built in).'
+TECHNIQUE += "; evaluation of _convert_convention_shell / convert_conventions on the repository's tables, synthetic signed re-orderings and an abstract basis"
+EXPLANATION += ' R2-R4 no longer match statement templates: _convert_convention_shell is interpreted on every pair of repository convention tables that share a key (both directions), on 864 synthetic signed re-orderings of three labels and on 12 ill-formed pairs; convert_conventions on an abstract 5-shell basis; results are compared with the definition in the docstring (independent oracle in the rule).'
 TRUSTED = ["CPython ast parser", "list.index returns the first position of an element", "numpy fancy indexing a[p] places a[p[i]] at position i"]
 
 
@@ -107,279 +109,16 @@ def run(ctx):
     ctx.floor("R1", len(tabs), 8, "convention tables")
     ctx.floor("R1", nentries, 130, "table entries")
 
-    # ------------------------------------------------------------------ R2/R3
+    # ------------------------------------------------------------------ R2 / R3 / R4
+    # decided by evaluating _convert_convention_shell and convert_conventions themselves (iodalint.accessors) on the
+    # repository's own tables, on synthetic signed re-orderings and on an abstract basis -- no statement template
+    ctx.rule("R2", "lists that are not signed re-orderings of each other are rejected", "duplicates / foreign labels silently map two positions to one function")
+    ctx.rule("R3", "permutation and signs follow the definition (sign = product of both label signs)", "a dropped sign factor, a wrong direction or an index on unstripped labels flips or mis-places functions")
+    ctx.rule("R4", "concatenation over shells and contractions with running offset", "a wrong offset or table maps functions across shell boundaries")
+    from .c10_semantics import check_conversion_semantics
+
+    check_conversion_semantics(ctx, "R3", "R4", {lab: tab for lab, relpath, lineno, tab, fn in tabs}, rid_reject="R2")
     cc = prog.func("iodata.convert.convert_conventions")
-    inner = [cs for cs in cc.calls if cs.callees and cs.callees[0].module is cc.module and cs.callees[0] is not cc and len(cs.callees[0].posparams) >= 2 and not cs.cls]
-    inner = [cs for cs in inner if cs.callees[0].name not in ("iter_cart_alphabet",)]
-    if len(inner) != 1:
-        raise AnalysisError(f"convert_conventions should call exactly one per-shell routine, found {[c.callees[0].name for c in inner]}")
-    shell_cs = inner[0]
-    sf = shell_cs.callees[0]
-    p1, p2 = sf.posparams[0], sf.posparams[1]
-    revp = sf.posparams[2] if len(sf.posparams) > 2 else None
-    ctx.rule("R2", "rejection guards dominate the permutation construction", "a dropped guard lets mismatching/duplicate labels be mis-mapped silently")
-    cfg = cfg_of(sf)
-    index_calls = [n for n in sf.own_nodes() if isinstance(n, ast.Call) and isinstance(n.func, ast.Attribute) and n.func.attr == "index"]
-    if len(index_calls) < 1:
-        raise AnalysisError("no .index( permutation construction found in the per-shell routine")
-    pm = prog.parents(sf)
-
-    def stmt_of(node):
-        cur = node
-        while id(cur) in pm and not isinstance(cur, ast.stmt):
-            cur = pm[id(cur)]
-        return cur
-
-    index_stmts = {id(stmt_of(n)): stmt_of(n) for n in index_calls}.values()
-
-    # def-use within sf: which params does a name derive from (flow-insensitive but rebinding-aware)
-    def roots(expr, depth=6):
-        out = set()
-        todo = [(expr, depth)]
-        seen = set()
-        while todo:
-            e, d = todo.pop()
-            for nm in names_in(e):
-                if nm in (p1, p2):
-                    out.add(nm)
-                if nm in sf.locals and nm not in sf.params and d > 0 and nm not in seen:
-                    seen.add(nm)
-                    for n in sf.own_nodes():
-                        if isinstance(n, ast.Assign) and any(isinstance(t, ast.Name) and t.id == nm for t in n.targets):
-                            todo.append((n.value, d - 1))
-        return out
-
-    def funcs_in(expr):
-        return {n.func.id for n in ast.walk(expr) if isinstance(n, ast.Call) and isinstance(n.func, ast.Name)}
-
-    guards = {"length": None, "dup1": None, "dup2": None, "sets": None}
-    for st in walk_stmts(sf.body):
-        if isinstance(st, ast.If) and any(isinstance(s, ast.Raise) and raises_class(s) == "ValueError" for s in st.body):
-            r = roots(st.test)
-            fs = funcs_in(st.test)
-            if r == {p1, p2} and fs <= {"len"} and "len" in fs:
-                guards["length"] = st
-            elif r == {p1} and ({"len", "set"} <= fs or "Counter" in fs):
-                guards["dup1"] = st
-            elif r == {p2} and ({"len", "set"} <= fs or "Counter" in fs):
-                guards["dup2"] = st
-            elif r == {p1, p2} and (("set" in fs) or ("sorted" in fs) or ("frozenset" in fs)):
-                guards["sets"] = st
-    for gname, st in guards.items():
-        if st is None:
-            ctx.violate("R2", f"rejection guard '{gname}' (raise ValueError) not found in {sf.name}", sf, sf.node, construct=f"guard {gname}")
-            continue
-        alldom = all(cfg.dominates(st, ist) for ist in index_stmts)
-        # the raise must be the whole true-branch (no fall-through that continues)
-        falls = [s for s in st.body if not isinstance(s, ast.Raise)]
-        if alldom and not st.orelse and isinstance(st.body[-1], ast.Raise):
-            ctx.ok("R2", f"guard '{gname}' raises ValueError and dominates the permutation construction", f"{sf.module.relpath}:{st.lineno}")
-        else:
-            ctx.violate("R2", f"guard '{gname}' does not dominate the permutation construction", sf, st)
-    # duplicates / set comparison must be applied to the *stripped* labels: the guards dominate after the strip assignments
-    strip_assigns = [n for n in sf.own_nodes() if isinstance(n, ast.Assign) and any(isinstance(c, ast.Call) and isinstance(c.func, ast.Attribute) and c.func.attr in ("lstrip", "removeprefix", "strip") for c in ast.walk(n.value))]
-    for gname in ("dup1", "dup2", "sets"):
-        st = guards[gname]
-        if st is None:
-            continue
-        if strip_assigns and all(cfg.dominates(sa, st) for sa in strip_assigns if names_in(sa.value) & roots(st.test) or True):
-            ctx.ok("R2", f"guard '{gname}' is evaluated on sign-stripped labels", f"{sf.module.relpath}:{st.lineno}")
-        else:
-            ctx.violate("R2", f"guard '{gname}' is evaluated before the sign prefixes are stripped", sf, st)
-
-    ctx.rule("R3", "permutation by .index on stripped lists; sign = product of both label signs", "a dropped sign factor or an index on unstripped labels flips or mis-places functions")
-    # sign lists: assignments whose value is a comprehension over p1 / p2 using startswith("-")
-    sign_of = {}
-    for n in sf.own_nodes():
-        if isinstance(n, ast.Assign) and len(n.targets) == 1 and isinstance(n.targets[0], ast.Name):
-            if any(isinstance(c, ast.Call) and isinstance(c.func, ast.Attribute) and c.func.attr == "startswith" for c in ast.walk(n.value)):
-                r = roots(n.value)
-                if len(r) == 1:
-                    sign_of[n.targets[0].id] = next(iter(r))
-    if set(sign_of.values()) != {p1, p2}:
-        ctx.violate("R3", "could not find one sign list per convention argument", sf, sf.node, construct="sign lists")
-    # sign lists must be computed before stripping
-    for nm, root in sign_of.items():
-        sa_root = [sa for sa in strip_assigns if any(isinstance(t, ast.Name) and t.id == root for t in sa.targets)]
-        defn = [n for n in sf.own_nodes() if isinstance(n, ast.Assign) and any(isinstance(t, ast.Name) and t.id == nm for t in n.targets)][0]
-        if all(cfg.dominates(defn, sa) for sa in sa_root):
-            ctx.ok("R3", f"sign list {nm} is taken from {root} before the prefixes are stripped", f"{sf.module.relpath}:{defn.lineno}")
-        else:
-            ctx.violate("R3", f"sign list {nm} is computed after the '-' prefixes were stripped (all signs +1)", sf, defn)
-    # branches on reverse
-    rev_if = [st for st in walk_stmts(sf.body) if isinstance(st, ast.If) and revp and revp in names_in(st.test)]
-    if len(rev_if) != 1:
-        ctx.violate("R3", "expected exactly one branch on the reverse flag", sf, sf.node, construct="reverse branch")
-    else:
-        st = rev_if[0]
-        neg = isinstance(st.test, ast.UnaryOp) and isinstance(st.test.op, ast.Not)
-        for branch, is_rev in ((st.body, not neg), (st.orelse, neg)):
-            perm_assign = sign_assign = None
-            for s in branch:
-                if isinstance(s, ast.Assign) and len(s.targets) == 1 and isinstance(s.targets[0], ast.Name):
-                    if any(isinstance(c, ast.Call) and isinstance(c.func, ast.Attribute) and c.func.attr == "index" for c in ast.walk(s.value)):
-                        perm_assign = s
-                    elif any(isinstance(c, ast.BinOp) and isinstance(c.op, ast.Mult) for c in ast.walk(s.value)):
-                        sign_assign = s
-            tag = "reverse" if is_rev else "forward"
-            if perm_assign is None or sign_assign is None:
-                ctx.violate("R3", f"{tag} branch lacks the permutation or the sign assignment", sf, st, construct=f"{tag} branch")
-                continue
-            # permutation = [SRC.index(el) for el in DST]: forward SRC=p1,DST=p2; reverse SRC=p2,DST=p1
-            comp = perm_assign.value
-            okp = False
-            if isinstance(comp, (ast.ListComp, ast.GeneratorExp)) and len(comp.generators) == 1:
-                call = comp.elt
-                it = comp.generators[0].iter
-                if isinstance(call, ast.Call) and isinstance(call.func, ast.Attribute) and isinstance(call.func.value, ast.Name) and isinstance(it, ast.Name):
-                    src, dst = call.func.value.id, it.id
-                    want = (p2, p1) if is_rev else (p1, p2)
-                    okp = (src, dst) == want and isinstance(call.args[0], ast.Name) and call.args[0].id == getattr(comp.generators[0].target, "id", None)
-            if okp:
-                ctx.ok("R3", f"{tag}: permutation = [{src}.index(el) for el in {dst}]", f"{sf.module.relpath}:{perm_assign.lineno}")
-            else:
-                ctx.violate("R3", f"{tag} branch: permutation is not built as [source.index(el) for el in target] with the expected roles", sf, perm_assign)
-            # signs = [sX[i] * sY for i, sY in zip(permutation, signsY)]
-            mults = [c for c in ast.walk(sign_assign.value) if isinstance(c, ast.BinOp) and isinstance(c.op, ast.Mult)]
-            oks = False
-            comp = sign_assign.value
-            if len(mults) == 1 and isinstance(comp, (ast.ListComp, ast.GeneratorExp)) and len(comp.generators) == 1:
-                m = mults[0]
-                g = comp.generators[0]
-                sub = m.left if isinstance(m.left, ast.Subscript) else (m.right if isinstance(m.right, ast.Subscript) else None)
-                other = m.right if sub is m.left else m.left
-                if sub is not None and isinstance(sub.value, ast.Name) and isinstance(other, ast.Name) and isinstance(g.iter, ast.Call) and getattr(g.iter.func, "id", "") == "zip" and isinstance(g.target, ast.Tuple):
-                    zargs = [getattr(a, "id", None) for a in g.iter.args]
-                    tnames = [getattr(e, "id", None) for e in g.target.elts]
-                    perm_name = perm_assign.targets[0].id
-                    # subscripted sign list indexed by the permutation element; the other iterates its own list directly
-                    if len(zargs) == 2 and len(tnames) == 2 and perm_name in zargs:
-                        ip = zargs.index(perm_name)
-                        idxvar, othervar = tnames[ip], tnames[1 - ip]
-                        direct_list = zargs[1 - ip]
-                        indexed_list = sub.value.id
-                        src_root = p2 if is_rev else p1
-                        dst_root = p1 if is_rev else p2
-                        oks = (
-                            getattr(sub.slice, "id", None) == idxvar
-                            and other.id == othervar
-                            and sign_of.get(indexed_list) == src_root
-                            and sign_of.get(direct_list) == dst_root
-                        )
-            if oks:
-                ctx.ok("R3", f"{tag}: sign = source_sign[perm[i]] * target_sign[i]", f"{sf.module.relpath}:{sign_assign.lineno}")
-            else:
-                ctx.violate("R3", f"{tag} branch: signs are not the product of the permuted source sign and the target sign", sf, sign_assign)
-    # index is applied to stripped lists: every .index statement is dominated by both strip assignments
-    for ist in index_stmts:
-        if len(strip_assigns) >= 2 and all(cfg.dominates(sa, ist) for sa in strip_assigns):
-            ctx.ok("R3", ".index applied after both lists are stripped", f"{sf.module.relpath}:{ist.lineno}")
-        else:
-            ctx.violate("R3", ".index is applied to labels that still carry sign prefixes", sf, ist)
-    # returns both
-    rets = [n for n in sf.own_nodes() if isinstance(n, ast.Return)]
-    if not (len(rets) == 1 and isinstance(rets[0].value, ast.Tuple) and len(rets[0].value.elts) == 2):
-        ctx.violate("R3", "per-shell routine does not return a (permutation, signs) pair from a single return", sf, sf.node, construct="return shape")
-
-    # ------------------------------------------------------------------ R4
-    ctx.rule("R4", "concatenation over shells with running offset", "a wrong offset or table maps functions across shell boundaries")
-    mb, newc = cc.posparams[0], cc.posparams[1]
-    revc = cc.posparams[2] if len(cc.posparams) > 2 else None
-    bound, extra, okb = bind_call(shell_cs.node, sf)
-    c1 = deref(cc, bound.get(p1)) if bound.get(p1) is not None else None
-    c2 = deref(cc, bound.get(p2)) if bound.get(p2) is not None else None
-
-    def is_table_lookup(e, base_pred):
-        return isinstance(e, ast.Subscript) and base_pred(e.value)
-
-    ok1 = is_table_lookup(c1, lambda b: isinstance(b, ast.Attribute) and b.attr == "conventions" and isinstance(b.value, ast.Name) and b.value.id == mb)
-    ok2 = is_table_lookup(c2, lambda b: isinstance(b, ast.Name) and b.id == newc)
-    if ok1 and ok2:
-        k1, k2 = deref(cc, c1.slice), deref(cc, c2.slice)
-        if ast.dump(k1) == ast.dump(k2):
-            ctx.ok("R4", "source = molbasis.conventions[key], target = new_conventions[key], same key", f"{cc.module.relpath}:{shell_cs.node.lineno}")
-        else:
-            ctx.violate("R4", "source and target tables are looked up with different keys", cc, shell_cs.node)
-    else:
-        ctx.violate("R4", "per-shell routine is not called with (basis' own conventions[key], new_conventions[key])", cc, shell_cs.node)
-    if revc:
-        e = bound.get(revp)
-        if isinstance(e, ast.Name) and e.id == revc:
-            ctx.ok("R4", "reverse flag passed through", cc.where)
-        else:
-            ctx.violate("R4", "reverse flag is not passed through to the per-shell routine", cc, shell_cs.node)
-    # loops: for shell in molbasis.shells: for angmom, kind in zip(shell.angmoms, shell.kinds)
-    loops = [n for n in cc.own_nodes() if isinstance(n, ast.For)]
-    outer = [l for l in loops if isinstance(l.iter, ast.Attribute) and l.iter.attr == "shells" and isinstance(l.iter.value, ast.Name) and l.iter.value.id == mb]
-    if len(outer) == 1 and len(loops) == 2:
-        sh = outer[0].target.id if isinstance(outer[0].target, ast.Name) else None
-        innerl = [l for l in loops if l is not outer[0]][0]
-        it = innerl.iter
-        good = (
-            isinstance(it, ast.Call) and getattr(it.func, "id", "") == "zip" and len(it.args) == 2
-            and all(isinstance(a, ast.Attribute) and isinstance(a.value, ast.Name) and a.value.id == sh for a in it.args)
-            and [a.attr for a in it.args] == ["angmoms", "kinds"]
-            and innerl in list(walk_stmts(outer[0].body))
-        )
-        # key = (angmom, kind) in the loop-target order
-        key = deref(cc, c1.slice) if ok1 else None
-        tn = [getattr(e, "id", None) for e in innerl.target.elts] if isinstance(innerl.target, ast.Tuple) else []
-        goodkey = isinstance(key, ast.Tuple) and [getattr(e, "id", None) for e in key.elts] == tn and len(tn) == 2
-        if good and goodkey:
-            ctx.ok("R4", "shells and their (angmom, kind) pairs traversed in order", f"{cc.module.relpath}:{outer[0].lineno}")
-        else:
-            ctx.violate("R4", "shell/contraction traversal is not `for shell in molbasis.shells: for angmom, kind in zip(shell.angmoms, shell.kinds)` with key (angmom, kind)", cc, innerl)
-    else:
-        ctx.violate("R4", "convert_conventions does not iterate molbasis.shells directly (re-ordered / filtered?)", cc, cc.node, construct="shell loop")
-    # offset discipline
-    ret = [n for n in cc.own_nodes() if isinstance(n, ast.Return)]
-    perm_name = sign_name = None
-    if len(ret) == 1 and isinstance(ret[0].value, ast.Tuple) and len(ret[0].value.elts) == 2:
-        def base_list(e):
-            e2 = e
-            if isinstance(e2, ast.Call) and e2.args:
-                e2 = e2.args[0]
-            return e2.id if isinstance(e2, ast.Name) else None
-        perm_name, sign_name = base_list(ret[0].value.elts[0]), base_list(ret[0].value.elts[1])
-    par = prog.parents(cc).get(id(shell_cs.node))
-    res_names = [getattr(e, "id", None) for e in par.targets[0].elts] if isinstance(par, ast.Assign) and isinstance(par.targets[0], ast.Tuple) else []
-    ext = {}
-    for n in cc.own_nodes():
-        if isinstance(n, ast.Call) and isinstance(n.func, ast.Attribute) and n.func.attr in ("extend", "append") and isinstance(n.func.value, ast.Name):
-            ext.setdefault(n.func.value.id, []).append(n)
-        if isinstance(n, ast.AugAssign) and isinstance(n.target, ast.Name) and isinstance(n.op, ast.Add):
-            ext.setdefault(n.target.id, []).append(n)
-    okoff = False
-    if perm_name and len(res_names) == 2 and len(ext.get(perm_name, [])) == 1 and len(ext.get(sign_name, [])) == 1:
-        pe = ext[perm_name][0]
-        arg = pe.args[0] if isinstance(pe, ast.Call) else pe.value
-        # i + offset for i in shell_permutation
-        if isinstance(arg, (ast.GeneratorExp, ast.ListComp)) and isinstance(arg.elt, ast.BinOp) and isinstance(arg.elt.op, ast.Add):
-            g = arg.generators[0]
-            parts = {getattr(arg.elt.left, "id", None), getattr(arg.elt.right, "id", None)}
-            off = (parts - {getattr(g.target, "id", None)})
-            if getattr(g.iter, "id", None) == res_names[0] and len(off) == 1:
-                offname = next(iter(off))
-                cfgc = cfg_of(cc)
-                offdefs = [n for n in cc.own_nodes() if isinstance(n, ast.Assign) and any(isinstance(t, ast.Name) and t.id == offname for t in n.targets)]
-                if len(offdefs) == 1:
-                    v = offdefs[0].value
-                    isl = isinstance(v, ast.Call) and getattr(v.func, "id", "") == "len" and getattr(v.args[0], "id", None) == perm_name
-                    pm_cc = prog.parents(cc)
-                    pst = pe
-                    while not isinstance(pst, ast.stmt):
-                        pst = pm_cc[id(pst)]
-                    samebody = pm_cc.get(id(offdefs[0])) is pm_cc.get(id(pst))
-                    okoff = isl and samebody and cfgc.dominates(offdefs[0], pst) and offdefs[0].lineno < pst.lineno
-        se = ext[sign_name][0]
-        sarg = se.args[0] if isinstance(se, ast.Call) else se.value
-        oksign = getattr(sarg, "id", None) == res_names[1]
-        if okoff and oksign:
-            ctx.ok("R4", "offset = len(permutation) taken before the extend of the same iteration; signs extended with the shell signs", f"{cc.module.relpath}:{pe.lineno}")
-        else:
-            ctx.violate("R4", "offset/extend discipline broken (offset not the length accumulated so far, or signs not extended with the shell's signs)", cc, pe if isinstance(pe, ast.stmt) else cc.node, construct="offset discipline" if not isinstance(pe, ast.stmt) else "")
-    else:
-        ctx.violate("R4", "cannot match the accumulate-with-offset idiom in convert_conventions", cc, cc.node, construct="accumulation idiom")
 
     # ------------------------------------------------------------------ R5
     ctx.rule("R5", "call sites bind both results; permutation only indexes, signs only multiply", "a call site that drops or swaps a result writes unconverted data")
